@@ -493,6 +493,10 @@ def _run_refactor(args):
         from .renamer import renamed_overlay
         name = d
         ov = renamed_overlay(root, d.split(":", 1)[1])
+    elif d.startswith("rewritten:"):
+        from .renamer import rewritten_overlay
+        name = d
+        ov = rewritten_overlay(root, d.split(":", 1)[1])
     else:
         name = "refactoring:" + os.path.basename(d.rstrip("/"))
         ov = refactor_overlay(root, d)
@@ -544,7 +548,7 @@ def run_for_property(prop: str) -> dict:
     import glob
     rdirs = sorted(glob.glob(os.path.join(REFACTOR_DIR, "*", "")))
     # ... and a copy of the package with every local variable and private function / constant renamed consistently
-    rdirs = ["renamed:both"] + rdirs
+    rdirs = ["renamed:both"] + [f"rewritten:{h}" for h in ("invert-if", "temp-return", "const-extract", "reorder-defs", "fstring-to-format")] + rdirs
     n_ref = n_undecided = 0
     if rdirs:
         with ProcessPoolExecutor(max_workers=min(16, len(rdirs))) as ex:
@@ -557,7 +561,7 @@ def run_for_property(prop: str) -> dict:
             n_ref += 1
             if r["fired"]:
                 disagreements.append(f"{r['variant']}: behaviour-preserving refactoring but {r['fired']} reported ({r['constructs'][:2]})")
-            elif r["errors"] and r["variant"].startswith("renamed:"):
+            elif r["errors"] and r["variant"].startswith(("renamed:", "rewritten:")):
                 disagreements.append(f"{r['variant']}: a consistent renaming leaves {r['errors'][:2]} undecided (a rule reads names)")
             elif r["errors"]:
                 n_undecided += 1
